@@ -498,6 +498,10 @@ CONTRACTS = {
 
 ITERATOR_RESULT = {"batch", "slice", "unique", "reverse", "map", "select", "reject",
                    "selectattr", "rejectattr"}
+# filters whose documented Python definition builds a NEW list ("Convert the
+# value into a list" = list(value); "using Python's sorted" = sorted(value)):
+# the result can never be the object that was passed in
+NEW_LIST_RESULT = {"list", "sort"}
 ASYNC_VARIANT = {"first", "groupby", "join", "list", "map", "select", "reject",
                  "selectattr", "rejectattr", "slice", "sum", "unique"}
 NEEDS_SIZED = {"length", "count"}
